@@ -34,6 +34,8 @@ def custom_definition(name):
     if name in CUSTOM_NUMERIC:
         M = sympy.Matrix([[complex(x) for x in row] for row in CUSTOM_NUMERIC[name].tolist()])
         return C.CustomGateDefinition(name, M, ())
+    if name == "customroot1":   # exact entries in which the imaginary unit hides inside roots of -1 (no explicit I)
+        return C.CustomGateDefinition(name, sympy.Matrix([[sympy.root(-1, 3), 0], [0, sympy.root(-1, 5) ** 2]]), ())
     a, b = sympy.Symbol("alpha"), sympy.Symbol("beta")
     if name == "custom1p":      # one qubit, two parameters, not symmetric in (alpha, beta)
         M = sympy.Matrix([[sympy.cos(a / 2), -sympy.exp(sympy.I * b) * sympy.sin(a / 2)],
